@@ -146,7 +146,10 @@ def check(run):
                     "standard-library axioms under Flocq's real-number theorems: " + ", ".join(C.FLOCQ_AXIOMS)]
     run.assumptions += ["Rust f64 comparison, `i64 as f64`, f64::trunc and `f64 as i64` behave as IEEE-754 binary64 round-to-nearest-even / truncation (modelled with Flocq)",
                         "NaN and infinite operands: no mathematical order is claimed; only model/implementation agreement is checked"]
+    import time
+    t0 = time.time()
     binpath = C.build_all(run, "theories/Cmp/Props_C08.vo", "C08.v")
+    t0 = C.phase(run, "translate+coq+audit+cargo", t0)
     if binpath is None:
         return
     rng = run.rng
@@ -162,7 +165,9 @@ def check(run):
         else:
             pairs.append(C.gen_num_pair(rng))
     answers = harness.run_jsonl(binpath, [{"op": "binall", "l": l, "r": r} for l, r in pairs])
+    t0 = C.phase(run, "impl pairs", t0)
     model = C.model_eval(run, "C08", ["cmp_case %s %s" % (C.g_value(l), C.g_value(r)) for l, r in pairs])
+    t0 = C.phase(run, "model pairs", t0)
     n_or = n_corr = 0
     for k, ((l, r), ans, sm) in enumerate(zip(pairs, answers, model)):
         nontrivial = None
@@ -207,6 +212,7 @@ def check(run):
                 ps = [(C.F(31.5), C.I(30)), (C.I(C.P53 + 1), C.F(float(C.P53)))] + finite_pairs(rng, 10)
                 ecases.append((kind, op, ps))
     eans = harness.run_jsonl(binpath, [engine_case(*c) for c in ecases])
+    t0 = C.phase(run, "engine programs", t0)
     n_eng = 0
     for (kind, op, ps), ans in zip(ecases, eans):
         run.case(("engine", kind, op, json.dumps(ps)))
